@@ -39,6 +39,12 @@ def transcript_programs():
     progs.append(("prog", "exp", "k", ("uid", "seg"), ("if", ("cmp", ("id", "seg"), "in", ("tup", tuple(("lit", c) for c in "xyzwvu"))), ("ret", (("in", "1"), ("IN", "1"))),
                                                        ("else", ("ret", (("out", "1"), ("out", "1"), ("OUT", "2")))))))
     progs.append(("prog", "exp", "c", ("userId", "userid", "USERID"), multi))
+    # non-ASCII text in every position of a program (salt, labels, operands, tuple members, under `not`): anything that prints
+    # or logs a piece of the source meets the process's stdout / locale encoding
+    ne = ("not", ("cmp", ("id", "seg"), "==", ("lit", "zürich")))
+    progs.append(("prog", "exp", "sél-日本", ("uid", "seg"), ("if", ne, ("ret", (("é", "1"), ("日本", "2"), ("🎲", "1"))), ("else", ("ret", (("ü", "1"), ("x", "1")))))))
+    progs.append(("prog", "exp", None, ("uid", "seg"), ("if", ("and", ("not", ("cmp", ("id", "seg"), "in", ("tup", (("lit", "é"), ("lit", "日本"))))), ("not", ("not", ("cmp", ("lit", "ß"), "!=", ("id", "seg"))))),
+                                                   ("ret", (("a", "1"), ("b", "1"))), ("elif", ("or", ("cmp", ("id", "seg"), "==", ("lit", "é")), ne), ("ret", (("c", "1"), ("d", "3"))), None))))
     return [(rp.render(p), p) for p in progs]
 
 
@@ -94,6 +100,12 @@ def apply_environment_knobs():
 
         time.time, time.monotonic, time.perf_counter = mk("time"), mk("monotonic"), mk("perf_counter")
         time.time_ns, time.monotonic_ns, time.perf_counter_ns = mk("time", True), mk("monotonic", True), mk("perf_counter", True)
+    if os.environ.get("XPROC_RMCWD"):
+        import tempfile
+
+        d = tempfile.mkdtemp(prefix="pyab_rmcwd_")
+        os.chdir(d)
+        os.rmdir(d)  # the process now lives in a directory that no longer exists
     if os.environ.get("XPROC_LOG_DEBUG"):
         import logging
 
@@ -152,10 +164,22 @@ def after_import_knobs():
         warnings.simplefilter("error")
 
 
+def _cwd():
+    try:
+        return os.getcwd()
+    except OSError:
+        return "<removed>"
+
+
 if __name__ == "__main__":
     apply_environment_knobs()
-    sys.stdout = open(os.devnull, "w")
-    rows = compute()
+    # the sink keeps the encoding and error policy of the process's real stdout: a stray print of a non-ASCII value under an
+    # ASCII-only stdout fails here exactly as it would in the host application
+    sys.stdout = open(os.devnull, "w", encoding=sys.__stdout__.encoding, errors=sys.__stdout__.errors)
+    try:
+        rows = compute()
+    except BaseException as e:  # noqa  (the library cannot even be imported / used in this process: that IS the transcript)
+        rows = [f"LIBRARY-FAILED {type(e).__name__}: {str(e)[:200]}"]
     blob = json.dumps(rows, ensure_ascii=True)
     info = {
         "digest": hashlib.sha256(blob.encode()).hexdigest(),
@@ -165,7 +189,7 @@ if __name__ == "__main__":
         "locale": locale.getpreferredencoding(False),
         "utf8_mode": sys.flags.utf8_mode,
         "optimize": sys.flags.optimize,
-        "cwd": os.getcwd(),
+        "cwd": _cwd(),
         "rows": rows if os.environ.get("XPROC_FULL") else None,
     }
     sys.__stdout__.write(json.dumps(info))
